@@ -1,1 +1,70 @@
-"""rules for c12 (under construction)"""
+"""C12 - problem classes honour the solver contract: purity clause (arguments are never written, results are fresh)."""
+
+import ast
+import re
+
+from ..model import AnalysisError
+from ..purity import Purity
+from ..runner import rule
+
+CONTRACT = re.compile(r'^(eval_f.*|solve_system.*|solve_jacobian|u_exact|apply_mass_matrix|build_f|boris_solver|fix_residual|eval_jacobian|get_non_linear_Jacobian)$')
+RESULT = re.compile(r'^(eval_f.*|solve_system.*|solve_jacobian|build_f|boris_solver)$')
+# documented output parameters (none in implementations/ today except the residual fixer, which exists to edit its argument)
+OUTPUT_PARAMS = {('fix_residual', 'res'): 'fix_residual(res) is the documented in-place hook for boundary rows of the residual'}
+
+
+def _problems(repo):
+    base = repo.cls('pySDC/core/problem.py', 'Problem')
+    out = [c for c in repo.subclasses(base) if repo.is_library(c)]
+    # problem-like classes that do not derive from Problem but are used through the same contract
+    return out
+
+
+@rule('C12', 'C12.R1', 'argument purity: eval_f / solve_system* / u_exact / ... never write into an object they were handed (flow-sensitive alias/view analysis)', floor=240)
+def r1(ctx, R):
+    repo = ctx.repo
+    for ci in _problems(repo):
+        for name, fn in ci.methods.items():
+            if not CONTRACT.match(name):
+                continue
+            w = f'{ci.module.relpath}:{ci.name}.{name}'
+            R.fn(w)
+            P = Purity(fn, resolver=lambda m, _ci=ci: (repo.resolve(_ci, m) or (None, None))[1])
+            hits = [h for h in P.hits if h.params()]
+            if not hits:
+                R.ok(f'{ci.name}.{name} :: no in-place write reaches a parameter', w, found=f'{len(P.params)} parameter(s) tracked; {len(P.aug_alias)} rebinding augmented assignment(s) on aliases (value-semantic, see C13.R1)')
+                continue
+            for h in hits:
+                for p in h.params():
+                    if (name, p) in OUTPUT_PARAMS:
+                        R.exc(f'{ci.name}.{name} :: writes {h.target} (parameter {p})', w, OUTPUT_PARAMS[(name, p)])
+                    else:
+                        R.bad(f'{ci.name}.{name} :: writes {h.target} (parameter {p})', w, 'arguments are read-only; work on a copy / fresh allocation', f'{h.detail}: `{ast.unparse(h.node)[:90]}`')
+
+
+@rule('C12', 'C12.R2', 'fresh result: eval_f / solve_system* return an object allocated in the call, never an argument, a view of one, or a cached attribute of self', floor=175)
+def r2(ctx, R):
+    repo = ctx.repo
+    prel = 'pySDC/core/problem.py'
+    base = repo.cls(prel, 'Problem')
+    for prop, ctor in (('u_init', 'self.dtype_u(self.init)'), ('f_init', 'self.dtype_f(self.init)')):
+        fn = base.methods.get(prop)
+        if fn is None:
+            raise AnalysisError(f'Problem.{prop} vanished')
+        rets = [ast.unparse(s.value) for s in ast.walk(fn) if isinstance(s, ast.Return) and s.value is not None]
+        R.check(rets == [ctor], f'Problem.{prop} :: allocates on every access', f'{prel}:Problem.{prop}', ctor, rets)
+    for ci in _problems(repo):
+        for name, fn in ci.methods.items():
+            if not RESULT.match(name):
+                continue
+            w = f'{ci.module.relpath}:{ci.name}.{name}'
+            P = Purity(fn, track_self=True)
+            if not P.returns:
+                continue
+            R.fn(w)
+            bad = [(s, [t for t in tags if t[0] != 'fresh']) for s, tags in P.returns]
+            bad = [(s, d) for s, d in bad if d]
+            if not bad:
+                R.ok(f'{ci.name}.{name} :: every returned value is fresh', w, found=f'{len(P.returns)} return(s)')
+            for s, d in bad:
+                R.bad(f'{ci.name}.{name} :: returns `{ast.unparse(s.value)[:40]}`', w, 'a value allocated in this call', f'may be {sorted(d)}')
